@@ -8,7 +8,7 @@ M="$WT/mutants/$N"
 export CARGO_TARGET_DIR="$WT/target" CARGO_NET_OFFLINE=true
 cd "$WT" || exit 2
 git checkout -q -- . ; rm -f tests/mutant_demo.rs
-if [ -n "$NIGHTLY" ]; then T="cargo +nightly test --offline --features nightly"; else T="cargo test --offline"; fi
+if [ "$NIGHTLY" = nightly ]; then T="cargo +nightly test --offline --features nightly"; elif [ "$NIGHTLY" = base64 ]; then T="cargo test --offline --features base64"; NIGHTLY=""; else T="cargo test --offline"; fi
 cp "$M/demo.rs" tests/mutant_demo.rs
 $T --test mutant_demo >"$M/confirm.clean.log" 2>&1; A=$?
 rm -f tests/mutant_demo.rs
